@@ -23,8 +23,10 @@ func VerifH_C12_Routing() {
 	internal.VerifCopyHook = verifCopy
 	configured := verifPrefixes[vrt.Choose("prefix", len(verifPrefixes))]
 	prefix := strings.TrimSuffix(configured, "/")
-	user := vrt.StrNIn("user", 1, 'a', 'z')
-	home := vrt.StrNIn("home", 1, 'a', 'z')
+	// two-byte names for the levels that have foreign siblings, so that a
+	// foreign name can be a proper prefix of the user's
+	user := vrt.StrNIn("user", 2, 'a', 'z')
+	home := vrt.StrNIn("home", 2, 'a', 'z')
 	coll := vrt.StrNIn("collection", 1, 'a', 'z')
 	obj := vrt.StrNIn("object", 1, 'a', 'z')
 	principal := prefix + "/" + user + "/"
@@ -45,17 +47,23 @@ func VerifH_C12_Routing() {
 	case 1:
 		path = principal
 		if vrt.Choose("foreign-principal", 2) == 1 {
-			other := vrt.StrNIn("other-user", 1, 'a', 'z')
+			other := vrt.StrNIn("other-user", 1+vrt.Choose("other-user-len", 2), 'a', 'z')
 			vrt.Assume(other != user)
-			path = prefix + "/" + other + "/"
+			path = prefix + "/" + other
+			if vrt.Choose("foreign-trailing-slash", 2) == 1 {
+				path += "/"
+			}
 			foreign = true
 		}
 	case 2:
 		path = homeSet
 		if vrt.Choose("foreign-homeset", 2) == 1 {
-			other := vrt.StrNIn("other-home", 1, 'a', 'z')
+			other := vrt.StrNIn("other-home", 1+vrt.Choose("other-home-len", 2), 'a', 'z')
 			vrt.Assume(other != home)
-			path = principal + other + "/"
+			path = principal + other
+			if vrt.Choose("foreign-trailing-slash", 2) == 1 {
+				path += "/"
+			}
 			foreign = true
 		}
 	case 3:
